@@ -2,7 +2,7 @@
    Only statements, each closed by [exact], each followed by Print Assumptions. *)
 From Coq Require Import List ZArith Bool.
 Import ListNotations.
-From GMS Require Import Range.Cut Range.C03IndexBuilder Range.C03IndexBuilderProofs.
+From GMS Require Import Range.Cut Range.MRange Range.C03IndexBuilder Range.C03IndexBuilderProofs Range.C03Multi Range.C03MultiProofs.
 Open Scope Z_scope.
 
 (* each call hands updateCol ranges that contain a column value exactly when the comparison is TRUE of it:
@@ -32,6 +32,34 @@ Theorem C03_lookup_complete_and_precise_partial : forall ops v, in_i32 v ->
   lookup_has (result (run ops)) v = filter_true ops v.
 Proof. exact lookup_exact. Qed.
 Print Assumptions C03_lookup_complete_and_precise_partial.
+
+(* ---- k index columns, In / NotIn, disjunctions ---- *)
+(* Every call addresses one of the k columns (In with at least one key).  For every key tuple t of k int32-or-NULL
+   values: the ranges of Ranges() (the odometer product of the per-column expressions, empty combinations dropped)
+   contain t iff every call is TRUE of t.  In(col, keys) is TRUE iff the column equals some key, NotIn iff it differs
+   from all; a non-integral or out-of-range key matches nothing. *)
+Theorem C03_multi_column_lookup_complete_and_precise : forall t ops, Forall in_i32 t -> t <> [] ->
+  Forall (wf_bop t) ops -> ucontains (mresult (mrun (length t) ops)) t = conj_true ops t.
+Proof. intros t ops Ht NE W. exact (mlookup_exact t Ht ops NE W). Qed.
+Print Assumptions C03_multi_column_lookup_complete_and_precise.
+
+(* A disjunction of such conjunctions (rangeBuildOr concatenates the children's collections, buildRangeCollection
+   passes them through RemoveOverlappingRanges): whatever collection comes back contains t iff some disjunct is TRUE.
+   PARTIAL w.r.t. the property: the analyzer's choice of which filters enter the scan (markLeftover / markImprecise,
+   AND over OR children via MySQLRangeCollection.Intersect), prefix indexes, other column types and the storage side
+   are not modelled; this disjunction level is tied to the code only through the engine-level differential check. *)
+Theorem C03_disjunction_lookup_complete_and_precise_partial : forall t fs fuel finds out c, Forall in_i32 t -> t <> [] ->
+  Forall (Forall (wf_bop t)) fs ->
+  remove_overlapping_ranges fuel finds (or_ranges (length t) fs) = (ROk out, c) ->
+  ucontains out t = or_true fs t.
+Proof. intros t fs fuel finds out c Ht NE W H. exact (or_lookup_exact t Ht fs fuel finds out c NE W H). Qed.
+Print Assumptions C03_disjunction_lookup_complete_and_precise_partial.
+
+Example C03_multi_nonvacuous :
+  mresult (mrun 2 [BOp 0 (ONe (2, 0%nat)); BIn 1 [(1, 0%nat); (15, 1%nat); (3, 0%nat)]]) =
+    [[gt_rce 2; closed_rce 1 1]; [lt_rce 2; closed_rce 3 3]; [gt_rce 2; closed_rce 3 3]; [lt_rce 2; closed_rce 1 1]] /\
+  conj_true [BOp 0 (ONe (2, 0%nat)); BIn 1 [(1, 0%nat); (15, 1%nat); (3, 0%nat)]] [Some 5; Some 3] = true.
+Proof. vm_compute. split; reflexivity. Qed.
 
 Example C03_nonvacuous :
   result (run [OGt (15, 1%nat); OLe (2147483648, 0%nat)]) = [mkR (Above 1) AboveAll] /\
